@@ -458,6 +458,9 @@ func (s *session) visitNode(sprint *sprint, run flows.Run, node flows.Node, trig
 		if err := trigger.InitializeRun(run, logEvent); err != nil {
 			return step, nil, "", nil
 		}
+
+		// initializing the run can change the contact, e.g. a message sets their last seen on, so groups are checked again
+		s.ensureQueryBasedGroups(logEvent)
 	}
 
 	// execute our node's actions
